@@ -75,6 +75,21 @@ class GenTable:
     def keys(self):
         raise symx.EngineUnsupported("iteration over the generic face table")
 
+    def items(self):
+        raise symx.EngineUnsupported("iteration over the generic face table")
+
+    def __iter__(self):
+        raise symx.EngineUnsupported("iteration over the generic face table")
+
+    def __len__(self):
+        raise symx.EngineUnsupported("len() of the generic face table")
+
+    def __getattr__(self, name):
+        # any other use of the ghost table is a limit of the generic-face abstraction, not a behaviour of the code under proof
+        if name.startswith("_"):
+            raise AttributeError(name)
+        raise symx.EngineUnsupported(f"the generic face table does not model `{name}`")
+
     def __bool__(self):
         return True
 
@@ -358,15 +373,19 @@ def run_native_table(s):
                 Wv = {s["axis"]: Wv[s["axis"]]}
             rules = rsets[rng.randrange(3)]
             extra = ("none", "before", "after")[rng.randrange(3)]
+            # the table is a mapping: the order in which faces and axes are LISTED is arbitrary
+            forder = list(table)
+            rng.shuffle(forder)
+            aorder = ["Y", "X"] if rng.random() < 0.5 else ["X", "Y"]
             try:
-                mism, n = NP.check_table(table, kind, Wv, rules, N=4, extra=extra)
+                mism, n = NP.check_table(table, kind, Wv, rules, N=4, extra=extra, face_order=forder, axis_order=aorder)
             except Exception as e:  # noqa
                 import traceback
                 return {"sid": s["sid"], "crash": f"native table harness: {type(e).__name__}: {e}", "tb": traceback.format_exc(limit=6), "obligations": [], "paths": 0, "queries": 0, "solver_time": 0.0}
             ncmp += n
             nrun += 1
             if mism:
-                bad.append({"table": {str(f): {a: [None if l is None else list(l) for l in lr] for a, lr in d.items()} for f, d in table.items()}, "kind": kind, "widths": {a: list(v) for a, v in Wv.items()},
+                bad.append({"face_order": forder, "axis_order": aorder, "table": {str(f): {a: [None if l is None else list(l) for l in lr] for a, lr in d.items()} for f, d in table.items()}, "kind": kind, "widths": {a: list(v) for a, v in Wv.items()},
                             "rules": rules, "extra": extra, "mismatches": mism[:4]})
                 break
         if bad:
@@ -453,7 +472,8 @@ def replay(ob):
     if wit.get("part") == "native-table":
         c = wit["case"]
         table = {int(f): {a: tuple(None if l is None else (l[0], l[1], bool(l[2])) for l in lr) for a, lr in d.items()} for f, d in c["table"].items()}
-        mism, n = native_pad.check_table(table, c["kind"], {a: tuple(v) for a, v in c["widths"].items()}, c["rules"], N=4, extra=c["extra"])
-        head = f"real Grid / pad on the table {table}, input {'scalar' if c['kind'] is None else 'vector component ' + c['kind']}, widths {c['widths']}, rules {c['rules']}"
+        mism, n = native_pad.check_table(table, c["kind"], {a: tuple(v) for a, v in c["widths"].items()}, c["rules"], N=4, extra=c["extra"],
+                                         face_order=c.get("face_order"), axis_order=c.get("axis_order"))
+        head = f"real Grid / pad on the table {table} (faces listed in the order {c.get('face_order')}, axes {c.get('axis_order')}), input {'scalar' if c['kind'] is None else 'vector component ' + c['kind']}, widths {c['widths']}, rules {c['rules']}"
         return {"confirmed": bool(mism), "text": "\n".join([head] + (["REAL CODE DISAGREES WITH THE SPECIFICATION:"] + mism[:8] if mism else ["agrees natively"]))}
     return native_pad.replay_face(ob)
